@@ -59,13 +59,20 @@ Theorem C05_load_xmi_is_denotation : forall parse_flt s d c,
   canon_loaded s c = denote_xmi parse_flt s d.
 Proof. exact load_xmi_is_denotation. Qed.
 Print Assumptions C05_load_xmi_is_denotation.
-(* C05_load_xmi_is_denotation_partial: the statement above is restricted to documents WITH an _InitialView sofa
-   (sofas_okb).  Full statement, not proved:
-     forall parse_flt s d c, reader_okb' parse_flt s d = true -> load_xmi parse_flt s false d = Ok c ->
-       canon_loaded s c = res_map with_initial (denote_xmi parse_flt s d)
-   where reader_okb' drops the _InitialView requirement and with_initial (XmiLoad.v) adds the pre-created initial view
-   with the next free xmi:id and sofaNum (941f890).  It is evaluated on every generated case (CorrC05.check_case compares
-   the observation with with_initial (denote_xmi ...)), including hand-written documents without that sofa. *)
+(* The same for EVERY document satisfying the remaining premises, with or without an _InitialView sofa (reader_okb0 =
+   reader_okb without that requirement): when the document has no such sofa, the view every Cas has from its construction
+   stays in the loaded CAS, without text and members, under the next free xmi:id (largest id of the document + 1) and the
+   next free sofaNum (941f890) - with_initial (XmiLoad.v) adds exactly that view to the denoted content, and is the identity
+   on a document that has the sofa.  The theorem above is the corollary for documents with the sofa. *)
+Theorem C05_load_xmi_is_denotation_general : forall parse_flt s d c,
+  reader_okb0 parse_flt s d = true -> load_xmi parse_flt s false d = Ok c ->
+  canon_loaded s c = res_map with_initial (denote_xmi parse_flt s d).
+Proof. exact load_xmi_is_denotation_gen. Qed.
+Print Assumptions C05_load_xmi_is_denotation_general.
+Theorem C05_reader_okb_is_general_plus_initial : forall parse_flt s d,
+  reader_okb parse_flt s d = reader_okb0 parse_flt s d && memb INITIAL (map sofa_name (filter is_sofa d)).
+Proof. exact reader_okb_split. Qed.
+Print Assumptions C05_reader_okb_is_general_plus_initial.
 
 (* Corollary: the content the reader produces does not depend on the presentation. *)
 Theorem C05_load_order_independent : forall parse_flt s d d' c c',
@@ -114,6 +121,25 @@ Example C05_premises_hold :
   | Ok c => res_map (fun cc => option_map (fun f => (alookup "begin" (cf_feats f), alookup "end" (cf_feats f)))
                                           (alookup_z 7 (cc_fs cc))) (canon_loaded ex_schema c)
             = Ok (Some (Some (CInt 2), Some (CInt 4)))
+  | _ => False
+  end.
+Proof. vm_compute. repeat split; reflexivity. Qed.
+
+(* non-vacuity of the general theorem: a document whose only sofa is a named view (astral text, xmi:id 5, sofaNum 3) and
+   whose largest xmi:id is 9 satisfies reader_okb0 but not reader_okb; the model loads it, and the loaded CAS has the
+   pre-created _InitialView under xmi:id 10 with sofaNum 4 next to the named view *)
+Definition ex_doc0 : xdoc :=
+ [mkX "http:///ex.ecore"%string "Tok"%string [("xmi:id"%string, "9"%string); ("begin"%string, "3"%string); ("end"%string, "5"%string); ("sofa"%string, "5"%string)] [];
+  mkX "http:///uima/cas.ecore"%string "View"%string [("sofa"%string, "5"%string); ("members"%string, "9"%string)] [];
+  mkX "http:///uima/cas.ecore"%string "Sofa"%string [("xmi:id"%string, "5"%string); ("sofaNum"%string, "3"%string); ("sofaID"%string, "other"%string); ("sofaString"%string, (String (Ascii.ascii_of_N 97%N) (String (Ascii.ascii_of_N 240%N) (String (Ascii.ascii_of_N 159%N) (String (Ascii.ascii_of_N 152%N) (String (Ascii.ascii_of_N 128%N) (String (Ascii.ascii_of_N 98%N) (String (Ascii.ascii_of_N 99%N) EmptyString))))))))] [];
+  mkX "http:///uima/cas.ecore"%string "NULL"%string [("xmi:id"%string, "0"%string)] []].
+Example C05_general_premises_hold :
+  reader_okb0 ex_flt ex_schema ex_doc0 = true /\ reader_okb ex_flt ex_schema ex_doc0 = false /\
+  match load_xmi ex_flt ex_schema false ex_doc0 with
+  | Ok c => res_map (fun cc => (map (fun so => (cs_id so, cs_num so, cs_name so, cs_members so)) (cc_sofas cc),
+                                option_map (fun f => (alookup "begin" (cf_feats f), alookup "end" (cf_feats f))) (alookup_z 9 (cc_fs cc))))
+                    (canon_loaded ex_schema c)
+            = Ok ([(5, 3, "other"%string, [9]); (10, 4, "_InitialView"%string, [])], Some (Some (CInt 2), Some (CInt 4)))
   | _ => False
   end.
 Proof. vm_compute. repeat split; reflexivity. Qed.
